@@ -449,6 +449,8 @@ class C19(Check):
         specs.append(S.SENS(K, interval=1, cap=2, n=0, second=0.5, same_name=True))
         specs.append(S.SENS(K, interval=1, cap=2, n=1, post_dq=-0.125))
         specs.append(S.SENS(K, interval=1, cap=2, n=0, burst=True, horizon=3))
+        specs.append(S.SENS(K + 1, interval=2, cap=2, n=2, manual=True, horizon=6))
+        specs.append(S.SENS(K, interval=1, cap=2, n=1, late_cb=True, cms_twice=False, horizon=4))
         # sensors and a CMS created while the line is running / between two runs: same schedule from their creation on
         late = S.LATE(1, creates=[[7], [8], [9]], horizon=4, name='sens')
         specs += [late, S.with_splits(late)]
